@@ -37,8 +37,11 @@ func corrC12(r *Run) {
 	ts := pduTypes()
 	n := r.N(24, 600)         // per type
 	bigBudget := r.N(25, 600) // values whose term is tens of KiB are slow to parse inside coqc: a fixed number per run
+	vol := &pduVolume{}
+	defer vol.diff(r)
+	volPerType := r.N(150, 3000) // further values per type, for the direct tests and the extracted model only
 	for _, t := range ts {
-		for i := 0; i < n; i++ {
+		for i := 0; i < n+volPerType; i++ {
 			mode := modeWild
 			if i%5 == 4 {
 				mode = modeDomain
@@ -55,6 +58,7 @@ func corrC12(r *Run) {
 			}
 			before := clonePDU(p)
 			term := coqValue(before)
+			valueLine := canonValueLine(before)
 			r.SetReplay(replayValue(before))
 			nret, err, w, panicked, pmsg := marshalRec(p)
 			cls := "ok"
@@ -91,7 +95,8 @@ func corrC12(r *Run) {
 						"first four octets = octets written = returned count")
 				}
 			}
-			if len(term) < 12000 || bigBudget > 0 {
+			vol.marshal(t.ID, valueLine, term, err, panicked, w)
+			if i < n && (len(term) < 12000 || bigBudget > 0) {
 				if len(term) >= 12000 {
 					bigBudget--
 				}
